@@ -122,7 +122,7 @@ def _ival(n, env, lets, depth=0):
             raise _NoEval("division by zero")
         return -(-a // b)
     leaf = env.get("__leaf__")
-    if leaf is not None and k in ("field", "mcall", "call", "index") and not (k == "mcall" and n["m"] in ("min", "max", "saturating_sub", "wrapping_sub", "checked_sub")):
+    if leaf is not None and k in ("field", "mcall", "call", "index") and not (k == "mcall" and n["m"] in ("min", "max", "saturating_sub", "wrapping_sub", "checked_sub", "checked_add", "checked_mul", "ok_or_else", "ok_or", "unwrap", "expect", "into", "try_into", "unwrap_or_default")):
         v = leaf(hirq.render(n))
         if v is not None:
             return v
@@ -136,8 +136,14 @@ def _ival(n, env, lets, depth=0):
             return v
     if k == "lit" and "int" in n["v"]:
         return n["v"]["int"]
-    if k == "cast":
+    if k == "cast" or k == "try":
         return _ival(n["e"], env, lets, depth + 1)
+    if k == "mcall" and n["m"] in ("ok_or_else", "ok_or", "unwrap", "expect", "unwrap_or_default", "into", "try_into") and hirq.strip(n["recv"]).get("k") in ("mcall", "try", "call", "path", "cast"):
+        # `a.checked_sub(b).ok_or_else(..)?` is `a - b` on the path that continues
+        return _ival(n["recv"], env, lets, depth + 1)
+    if k == "mcall" and n["m"] in ("checked_add", "checked_mul") and len(n["args"]) == 1:
+        a, b = _ival(n["recv"], env, lets, depth + 1), _ival(n["args"][0], env, lets, depth + 1)
+        return a + b if n["m"] == "checked_add" else a * b
     if k == "block" and not n.get("stmts") and n.get("e"):
         return _ival(n["e"], env, lets, depth + 1)
     if k == "path" and "local" in n["res"]:
@@ -163,6 +169,8 @@ def _ival(n, env, lets, depth=0):
         return min(a, b) if n["m"] == "min" else max(a, b)
     if k == "mcall" and n["m"] in ("saturating_sub", "wrapping_sub", "checked_sub") and len(n["args"]) == 1:
         a, b = _ival(n["recv"], env, lets, depth + 1), _ival(n["args"][0], env, lets, depth + 1)
+        if n["m"] == "checked_sub" and a - b < 0:
+            raise _NoEval("checked_sub underflow (the error path)")
         return max(a - b, 0) if n["m"] == "saturating_sub" else a - b
     raise _NoEval(hirq.render(n)[:60])
 
